@@ -147,6 +147,48 @@ def gen_cases(thorough):
                 if il in ("{%s:>8}", "a{%s}", "{%s:x?}"):
                     add(derive, cont, lit_rs(il.replace("%s", "0")) + ", " + last, "inert", desc="inert (positional): " + il)
             add(derive, cont, lit_rs("text only"), "inert", desc="no placeholder")
+    # (e) ENUM-level attributes.  A bare `{_variant}` is a Display placeholder: under derive(Display) it is "as if absent", so the
+    # flags reach whatever the variant itself delegates to; under any other derive the variant's text is not a Display argument and the
+    # attribute is an ordinary (inert) format.  A non-wrapping enum-level literal is the format of the variants without their own one.
+    def add_enum(derive, shared, own, expect, arg_expr=None, ptrait=None, desc=""):
+        c = Container("variant1")
+        at = ATTR[derive]
+        item = "#[derive(derive_more::%s)] #[%s(%s)] pub enum T { %s V(&'static i32), #[%s(\"w\")] W }" % (derive, at, shared, ("#[%s(%s)]" % (at, own)) if own else "", at)
+        if expect == "pass":
+            body = 'for v0 in ivals() { let t = T::V(v0); %s r.eq(%s, grid_%s(&t), grid_%s(&(%s))); }' % (
+                c.bind_refs(), lit_rs("flags must apply to the argument under " + ptrait), derive.lower(), ptrait.lower(), arg_expr)
+        else:
+            body = 'for v0 in ivals() { let t = T::V(v0); let plain = format!("{:%s}", t); r.eq(%s, grid_%s(&t), vec![plain; NSPECS]); }' % (
+                LETTER[derive], lit_rs("caller's flags must leave the output unchanged"), derive.lower())
+        mod = "use super::*;\n%s\npub fn run(r: &mut R) {\n    %s\n}" % (item, body)
+        cases.append(Case("c%d" % len(cases), mod, expect="ok", has_run=True,
+                          meta={"src": " ".join(item.split()), "expect": expect, "desc": "enum-level " + desc, "derive": derive}))
+
+    pure = ['"{_variant}"', '"{}", _variant', '"{0}", _variant', '"{v}", v = _variant', '"{_variant }"']
+    wrapping = ['"<{_variant}>"', '"{_variant}{_variant}"', '"{_variant} "', '"{{}}{_variant}"']
+    owns = [(None, "pass", "Display"), ('"{_0}"', "pass", "Display"), ('"{_0:x}"', "pass", "LowerHex"), ('"a{_0}"', "inert", None), ('"{_0:>8}"', "inert", None)]
+    for derive in derives:
+        if derive == "Debug":
+            continue    # an enum-level format attribute on Debug is rejected (C07)
+        for sh in pure:
+            for own, exp, ptrait in owns:
+                if derive == "Display":
+                    add_enum(derive, sh, own, exp, "*f0", ptrait if own else derive, "bare `_variant` under Display, variant: %s" % (own or "no attribute"))
+                else:
+                    add_enum(derive, sh, own, "inert", desc="bare `_variant` under a non-Display derive, variant: %s" % (own or "no attribute"))
+        for sh in wrapping:
+            for own, _, _ in owns[:3]:
+                add_enum(derive, sh, own, "inert", desc="wrapping literal with text, variant: %s" % (own or "no attribute"))
+        for letter, ptrait in BY_LETTER.items():
+            if not thorough and ptrait not in ("Display", "LowerHex", derive):
+                continue
+            sp = (":" + letter) if letter else ""
+            add_enum(derive, lit_rs("{_0%s}" % sp), None, "pass", "*f0", ptrait, "default literal, bare, field by name")
+            add_enum(derive, lit_rs("{_0%s}" % sp), '"{_0}"', "pass", "*f0", "Display", "default literal overridden by the variant's own bare one")
+            add_enum(derive, lit_rs("{_0%s}" % sp), '"a{_0}"', "inert", desc="default literal overridden by the variant's own inert one")
+            add_enum(derive, lit_rs("a{_0%s}" % sp), None, "inert", desc="default literal with text")
+            if ptrait != "Pointer":
+                add_enum(derive, lit_rs("{%s}" % sp) + ", _0", None, "pass", "f0", ptrait, "default literal, bare, one argument")
     return cases
 
 
@@ -155,7 +197,7 @@ def run(chk, tier):
     cases = gen_cases(thorough)
     chk.part("space", programs=len(cases), outer_specs=len(outer_specs()),
              grid="fill{none,*} x align{none,<,^,>} x sign{none,+} x # x 0 x width{none,8} x precision{none,.3} (fill only with an alignment)",
-             containers=["newtype tuple/named", "two-field struct", "enum variant (1 and 2 fields)"],
+             containers=["newtype tuple/named", "two-field struct", "enum variant (1 and 2 fields)", "enum with an enum-level attribute (bare/wrapping `_variant`, default literal) x variant's own attribute"],
              literal_classes=["no attribute (single field)", "bare placeholder x 9 traits x {field by name, implicit/index 0 + one argument, matching alias, expression}",
                               "index 1 / 7 with one argument (must not compile)", "each modifier kind, x?/X?, text, escapes, two placeholders, width argument, text only (inert)"],
              values="3 per field")
